@@ -801,3 +801,127 @@ func RandomPick(r *Rand, pe, pa int) func(step int, alive []int, at []string) (i
 		return alive[i], env
 	}
 }
+
+// RunReadCase: builds an initial state, parks the sequencer, issues writes one after the other
+// (their results stay in the slots, the read revision does not move), then reads with explicit
+// revisions around the stored ones.
+func (n *KBNode) RunReadCase(r *Rand, fixedWrites []KReq, fixedInit []int) (*KReadCase, error) {
+	n.caseNo++
+	ctx := context.Background()
+	c := &KReadCase{Engine: n.Engine, Cidx0: n.Cidx0}
+	classes := fixedInit
+	if classes == nil {
+		c.NKeys = 2 + r.Intn(2)
+		for i := 0; i < c.NKeys; i++ {
+			classes = append(classes, r.Intn(NumInit))
+		}
+	}
+	c.NKeys = len(classes)
+	if err := n.buildInit(classes); err != nil {
+		n.Dead = true
+		return c, err
+	}
+	c.D0 = n.B.GetCurrentRevision()
+	init, err := n.KeyStates(c.NKeys)
+	if err != nil {
+		return c, err
+	}
+	c.Init = init
+	live := make([]uint64, c.NKeys)
+	for i, ks := range init {
+		if ks.HasIdx && !ks.IdxDel {
+			live[i] = ks.IdxRev
+		}
+	}
+	KBSeqPark(true)
+	time.Sleep(2 * time.Millisecond)
+	defer KBSeqPark(false)
+	writes := fixedWrites
+	if writes == nil {
+		nw := 1 + r.Intn(4)
+		for j := 0; j < nw; j++ {
+			q := KReq{Key: r.Intn(c.NKeys), Val: []byte(fmt.Sprintf("w%d", j))}
+			switch {
+			case live[q.Key] == 0:
+				q.Op = OpCreate
+			case r.Intn(3) == 0:
+				q.Op, q.Sym = OpDelete, SymCorrect
+			default:
+				q.Op, q.Sym = OpUpdate, SymCorrect
+			}
+			if r.Intn(6) == 0 {
+				q.Sym = SymStale
+			}
+			writes = append(writes, q)
+		}
+	}
+	last := c.D0
+	for _, q := range writes {
+		switch q.Sym {
+		case SymCorrect:
+			q.Rev = live[q.Key]
+		case SymStale:
+			q.Rev = c.D0 - 1
+		}
+		q.Sym = SymLit
+		resp := n.Do(q, n.Key(q.Key))
+		c.Writes = append(c.Writes, q)
+		c.WResps = append(c.WResps, resp)
+		if !resp.Err && resp.Succ {
+			if q.Op == OpDelete {
+				live[q.Key] = 0
+			} else {
+				live[q.Key] = resp.Hdr
+			}
+		}
+		last++
+	}
+	revs := []uint64{0, c.D0}
+	for x := c.D0 + 1; x <= last; x++ {
+		revs = append(revs, x)
+	}
+	revs = append(revs, last+7, 1<<63)
+	prefix := []byte(fmt.Sprintf("%s/c%d/", KBPrefix, n.caseNo))
+	end := append([]byte{}, prefix...)
+	end[len(end)-1]++
+	keyID := func(k []byte) int {
+		for i := 0; i < c.NKeys; i++ {
+			if bytes.Equal(k, n.Key(i)) {
+				return i
+			}
+		}
+		return 999
+	}
+	for _, rev := range revs {
+		for i := 0; i < c.NKeys; i++ {
+			rd := KRead{Key: i, Rev: rev}
+			resp, err := n.B.Get(ctx, &proto.GetRequest{Key: n.Key(i), Revision: rev})
+			if err != nil || resp == nil {
+				rd.Err = true
+			} else {
+				rd.Hdr = resp.GetHeader().GetRevision()
+				if resp.Kv != nil {
+					rd.Kvs = append(rd.Kvs, KReadKv{Key: i, Val: resp.Kv.Value, Rev: resp.Kv.Revision})
+				}
+			}
+			c.Reads = append(c.Reads, rd)
+		}
+		rd := KRead{IsList: true, Rev: rev}
+		resp, err := n.B.List(ctx, &proto.RangeRequest{Key: prefix, End: end, Revision: rev})
+		if err != nil || resp == nil {
+			rd.Err = true
+		} else {
+			rd.Hdr = resp.GetHeader().GetRevision()
+			for _, kv := range resp.Kvs {
+				rd.Kvs = append(rd.Kvs, KReadKv{Key: keyID(kv.Key), Val: kv.Value, Rev: kv.Revision})
+			}
+		}
+		c.Reads = append(c.Reads, rd)
+	}
+	KBSeqPark(false)
+	if !n.WaitRev(last, 2*time.Second) {
+		n.Dead = true
+		return c, fmt.Errorf("stalled after the sequencer was released")
+	}
+	return c, nil
+}
